@@ -46,6 +46,13 @@ func cmdGen(args []string) {
 				s = cardinalityScript(r, tr, id, i)
 			case "chain":
 				s = chainScript(r, tr, id, i)
+			case "overrun":
+				// (loopback TCP only: what a net/http server does with a request
+				// it gives up reading is taken from the real one)
+				if tr != "http" {
+					continue
+				}
+				s = overrunScript(r, tr, id, i)
 			case "stall":
 				if tr != "inproc" {
 					continue
@@ -91,6 +98,41 @@ func chainScript(r *rand.Rand, tr, id string, i int) *Script {
 	h = append(h, Op{Name: "Return", Arg: 1, Arg2: 0})
 	s.H = number(h)
 	s.NHdr = maxArg(s.H, "SetHeader")
+	s.NTrl = maxArg(s.H, "SetTrailer")
+	return s
+}
+
+// overrunScript: an HTTP stream whose handler returns early while the client
+// keeps sending -- more than the 256 KiB of unread request body a net/http
+// server is prepared to swallow before it answers and drops the connection --
+// and never half-closes: the call ends with its final status while the request
+// body is still open. Nothing may be left behind.
+func overrunScript(r *rand.Rand, tr, id string, i int) *Script {
+	s := &Script{ID: id, Kind: []string{"bidi", "cstream"}[i%2], Tr: tr, Mode: "free", Seed: r.Int63(), Calls: 1, ReqMD: true}
+	// boundarySizes index 14*17.. : around 2^17 = 128 KiB
+	s.MsgCls = "sized:238"
+	st := 0
+	if r.Intn(3) != 0 {
+		st = 1
+		s.StCls = []string{statusClasses[r.Intn(len(statusClasses))]}
+	}
+	var h []Op
+	if r.Intn(2) == 0 {
+		h = append(h, Op{Name: "Recv"})
+	}
+	if r.Intn(2) == 0 {
+		h = append(h, Op{Name: "SetTrailer"})
+	}
+	if s.Kind == "cstream" && st == 0 {
+		h = append(h, Op{Name: "Send"})
+	}
+	h = append(h, Op{Name: "Return", Arg: st})
+	for k, n := 0, 4+r.Intn(3); k < n; k++ {
+		s.CS = append(s.CS, Op{Name: "Send"})
+	}
+	s.CR = []Op{{Name: "RecvAll"}, {Name: "Recv"}}
+	s.H = number(h)
+	s.CS = number(s.CS)
 	s.NTrl = maxArg(s.H, "SetTrailer")
 	return s
 }
